@@ -2,6 +2,7 @@
 import ast
 import os
 
+from ..resilient import run_nested as _run_nested
 from .. import nf, bind
 from ..nf import Poly, Tup, Const, NONE, TRUE, FALSE
 from ..effects import Effects
@@ -101,7 +102,7 @@ def run(chk, repo, tier):
     chk.clause('C10-f', 'Field.__mul__ builds new tilt lists; Plane.copy is deep; copies only are written when inplace=False', 3)
     chk.clause('C10-g', 'a reused scratch buffer does not influence the result: the used region is zeroed, filled and transformed consistently', 4)
     from . import c09 as _c09
-    _c09.run(common.Remap(chk, {'C09-d': 'C10-g'}), repo, tier)
+    _run_nested(_c09, common.Remap(chk, {'C09-d': 'C10-g'}), repo, tier)
     chk.not_decided += ['bit-for-bit repeatability (assumes numpy/scipy are pure)']
 
     eff = Effects(repo)
@@ -192,7 +193,7 @@ def run(chk, repo, tier):
     plane_copy_rules(chk, repo, 'C10-f')
     from . import c17 as _c17
     nd_ = list(chk.not_decided)
-    _c17.run(common.Remap(chk, {'C17-e': 'C10-f'}), repo, tier)
+    _run_nested(_c17, common.Remap(chk, {'C17-e': 'C10-f'}), repo, tier)
     chk.not_decided[:] = nd_
     for key, cfg in (('plane.Plane.fit_tilt', {'inplace': FALSE}), ('plane.Plane.rescale', None),
                      ('plane.Plane.resample', None)):
